@@ -32,12 +32,20 @@ shapes! {
     "DualVec1" => DualVecS<Real, C<1>>,
     "DualVec2" => DualVecS<Real, C<2>>,
     "DualVec3" => DualVecS<Real, C<3>>,
+    "DualVec4" => DualVecS<Real, C<4>>,
+    "DualVec5" => DualVecS<Real, C<5>>,
+    "DualVec6" => DualVecS<Real, C<6>>,
+    "DualVecD4" => DualVecS<Real, Dy<4>>,
+    "DualVecD6" => DualVecS<Real, Dy<6>>,
     "DualVecD1" => DualVecS<Real, Dy<1>>,
     "DualVecD2" => DualVecS<Real, Dy<2>>,
     "DualVecD3" => DualVecS<Real, Dy<3>>,
     "Dual2Vec1" => Dual2VecS<Real, C<1>>,
     "Dual2Vec2" => Dual2VecS<Real, C<2>>,
     "Dual2Vec3" => Dual2VecS<Real, C<3>>,
+    "Dual2Vec4" => Dual2VecS<Real, C<4>>,
+    "Dual2VecD3" => Dual2VecS<Real, Dy<3>>,
+    "Dual2VecD4" => Dual2VecS<Real, Dy<4>>,
     "Dual2VecD1" => Dual2VecS<Real, Dy<1>>,
     "Dual2VecD2" => Dual2VecS<Real, Dy<2>>,
     "HyperDualVec11" => HyperVecS<Real, C<1>, C<1>>,
@@ -45,6 +53,9 @@ shapes! {
     "HyperDualVec12" => HyperVecS<Real, C<1>, C<2>>,
     "HyperDualVec22" => HyperVecS<Real, C<2>, C<2>>,
     "HyperDualVec23" => HyperVecS<Real, C<2>, C<3>>,
+    "HyperDualVec33" => HyperVecS<Real, C<3>, C<3>>,
+    "HyperDualVec42" => HyperVecS<Real, C<4>, C<2>>,
+    "HyperDualVecD33" => HyperVecS<Real, Dy<3>, Dy<3>>,
     "HyperDualVecD11" => HyperVecS<Real, Dy<1>, Dy<1>>,
     "HyperDualVecD22" => HyperVecS<Real, Dy<2>, Dy<2>>,
     "HyperDualVecD23" => HyperVecS<Real, Dy<2>, Dy<3>>,
